@@ -162,10 +162,21 @@ def gen_registry():
     wrap = _one(_calls(ns, attr='wrap'), 'NormalizedString.serialize textwrap.wrap')
     kw = {k.arg: k.value for k in wrap.keywords}
     w = kw.get('width')
-    if not (isinstance(w, ast.BinOp) and isinstance(w.op, ast.Sub) and isinstance(w.left, ast.Constant)
-            and isinstance(w.right, ast.Name) and w.right.id == 'prefixLen'):
-        raise ExtractionError('NormalizedString.serialize: expected width=<int>-prefixLen')
-    wrap_width = w.left.value
+    # width=max(<int>, <int>-prefixLen)
+    if not (isinstance(w, ast.Call) and isinstance(w.func, ast.Name) and w.func.id == 'max' and len(w.args) == 2
+            and isinstance(w.args[0], ast.Constant) and isinstance(w.args[1], ast.BinOp) and isinstance(w.args[1].op, ast.Sub)
+            and isinstance(w.args[1].left, ast.Constant) and isinstance(w.args[1].right, ast.Name) and w.args[1].right.id == 'prefixLen'):
+        raise ExtractionError('NormalizedString.serialize: expected width=max(<int>, <int>-prefixLen)')
+    wrap_min = w.args[0].value
+    wrap_width = w.args[1].left.value
+    flags = {}
+    for nm in ('break_long_words', 'break_on_hyphens'):
+        if nm not in kw or not isinstance(kw[nm], ast.Constant) or not isinstance(kw[nm].value, bool):
+            raise ExtractionError('NormalizedString.serialize: expected %s=<bool> in textwrap.wrap(...)' % nm)
+        flags[nm] = kw[nm].value
+    extra_kw = sorted(set(kw) - {'width', 'break_long_words', 'break_on_hyphens'})
+    if extra_kw:
+        raise ExtractionError('NormalizedString.serialize: unexpected textwrap options %s' % extra_kw)
     pl = None
     for n in ast.walk(ns):
         if isinstance(n, ast.Assign) and isinstance(n.targets[0], ast.Name) and n.targets[0].id == 'prefixLen':
@@ -252,6 +263,9 @@ def gen_registry():
     d('SeparatedListOf.__str__ of an empty list', 'emptyListStr', 'Py.Str', lstr(empty_list_str))
     d('NormalizedString.serialize: textwrap width before subtracting the prefix', 'wrapWidth', 'Nat', str(int(wrap_width)))
     d('NormalizedString.serialize: prefixLen = len(name) + this', 'wrapPrefixExtra', 'Nat', str(int(pl)))
+    d('NormalizedString.serialize: lower bound of the width', 'wrapMinWidth', 'Nat', str(int(wrap_min)))
+    d('NormalizedString.serialize: textwrap break_long_words', 'wrapBreakLongWords', 'Bool', 'true' if flags['break_long_words'] else 'false')
+    d('NormalizedString.serialize: textwrap break_on_hyphens', 'wrapBreakOnHyphens', 'Bool', 'true' if flags['break_on_hyphens'] else 'false')
     d('utils.str.toBool: strings meaning True', 'toBoolTrue', 'List Py.Str', llist(lstr(x) for x in tabs[0][1]))
     d('utils.str.toBool: strings meaning False', 'toBoolFalse', 'List Py.Str', llist(lstr(x) for x in tabs[1][1]))
     d("Boolean.set: the 'toggle' word", 'toggleWord', 'Py.Str', lstr(toggle))
